@@ -192,6 +192,11 @@ func (h *SexpHash) DotPathHashGet(env *Zlisp, sym *SexpSymbol) (Sexp, error) {
 
 func (hash *SexpHash) HashGet(env *Zlisp, key Sexp) (res Sexp, err error) {
 	//Q("top of HashGet, key = '%v' of type %T", key.SexpString(nil), key)
+	if env == nil {
+		// internal lookups (printing, type checks) come without an
+		// interpreter; a dotted key needs one to walk its path
+		env = hash.Env
+	}
 	switch sym := key.(type) {
 	case *SexpSymbol:
 		if sym == nil {
